@@ -9,5 +9,6 @@ INVARIANT TypeOK
 INVARIANT SessionHasCause
 PROPERTY SolicitedOnly
 PROPERTY NoLateLogin
+PROPERTY LogoutIsTargeted
 PROPERTY NoReplay
 CHECK_DEADLOCK FALSE
